@@ -373,6 +373,7 @@ def check_cell(ctx, MT, cn, opname, m, n, res, table, spy_log, replay, decode=Tr
     """res = ('ok', value) | ('raise', ex) of the real operator on operands holding m and n values;
     table[i][j] = single-valued reference for elements (i, j) (n == 's': one column).  Returns nothing; reports."""
     site = f"{definer(cn, dunder) if dunder else cn}.{optoken(opname)}"
+    site = REPAIRED_SITES.get(site, site)
     replay = dict(replay, concrete_class=cn)
     nn = 1 if right_kind != 'seq' else n
     cell = 'Mxscalar' if right_kind == 'scalar' else ('1x1' if (m, nn) == (1, 1) else '1xM' if m == 1 else 'Mx1' if nn == 1 else 'MxM' if m == nn else 'MxN')
@@ -707,15 +708,15 @@ def methods_of(cn):
                M_('conj()', 'conj', lambda x: x.conj(), 'acc_map'), M_('norm()', 'norm', lambda x: x.norm()),
                M_('unit()', 'unit', lambda x: x.unit(), 'acc_map'), M_('-x', '__neg__', lambda x: -x, 'acc_map'),
                M_('log()', 'log', lambda x: x.log(), single('TypeError')), M_('exp()', 'exp', lambda x: x.exp(), None, 'census'),
-               M_('matrix', 'matrix', lambda x: x.matrix, None, 'census')]
+               M_('matrix', 'matrix', lambda x: x.matrix)]        # branches on len(self) == 1 since fix 66f9b8b
     if cn == 'UnitQuaternion':
         ms += [M_('inv()', 'inv', lambda x: x.inv(), 'acc_map'), M_('R', 'R', lambda x: x.R), M_('SO3()', 'SO3', lambda x: x.SO3(), None),
                M_('SE3()', 'SE3', lambda x: x.SE3(), single('ValueError')), M_('vec3', 'vec3', lambda x: x.vec3, None, 'census')]
     if cn in ('Twist3', 'Twist2'):
         ms += [M_('inv()', 'inv', lambda x: x.inv(), 'acc_map'), M_('S', 'S', lambda x: x.S), M_('v', 'v', lambda x: x.v, 'acc_first'),
                M_('w', 'w', lambda x: x.w, 'acc_first'),
-               M_('isprismatic', 'isprismatic', lambda x: x.isprismatic, single('AttributeError')),
-               M_('isrevolute', 'isrevolute', lambda x: x.isrevolute, single('AttributeError')), M_('isunit', 'isunit', lambda x: x.isunit),
+               M_('isprismatic', 'isprismatic', lambda x: x.isprismatic),          # the M > 1 branch iterates twist objects since fix 98c866c
+               M_('isrevolute', 'isrevolute', lambda x: x.isrevolute), M_('isunit', 'isunit', lambda x: x.isunit),
                M_('exp()', 'exp', lambda x: x.exp(), single('ValueError')),
                M_('unit', 'unit', lambda x: x.unit)]                 # branches on len(self) == 1 since fix 4908bfb
     if cn == 'Twist3':
@@ -777,7 +778,9 @@ def parse_acc(s, M):
 
 
 # sites whose sequence defect was repaired: their cells stay in the grid under a key no stale known entry can match
-REPAIRED_SITES = {'SMTwist.unit': 'SMTwist.unit[seq-branch-4908bfb]', 'Twist2.unit': 'Twist2.unit[seq-branch-4908bfb]'}
+REPAIRED_SITES = {'SMTwist.unit': 'SMTwist.unit[seq-branch-4908bfb]', 'Twist2.unit': 'Twist2.unit[seq-branch-4908bfb]',
+                  'SMTwist.isprismatic': 'SMTwist.isprismatic[seq-branch-98c866c]', 'SMTwist.isrevolute': 'SMTwist.isrevolute[seq-branch-98c866c]',
+                  'SMPose.mul-points': 'SMPose.mul-points[columns-86fcbcb]'}
 
 
 def method_grid(ctx, MT, census_out=None):
